@@ -23,7 +23,7 @@ def _cli(smt2, cmd, secs):
     return out
 
 
-def second_opinion(axioms, hyps, goal, secs=10):
+def second_opinion(axioms, hyps, goal, secs=6):
     """returns ('unsat'|'sat'|'unknown', backend)"""
     s = Solver(); s.add(axioms); s.add(hyps); s.add(Not(goal))
     try: smt2 = '(set-logic ALL)\n' + s.to_smt2()
@@ -36,11 +36,37 @@ def second_opinion(axioms, hyps, goal, secs=10):
     return 'unknown', None
 
 
-def refute_by_grounding(o, axioms, sorts, sizes=(2, 3), budget=20.0):
+def _decls(e, acc, seen):
+    if e.get_id() in seen: return
+    seen.add(e.get_id())
+    if is_quantifier(e): _decls(e.body(), acc, seen); return
+    if is_app(e):
+        d = e.decl()
+        if d.kind() == Z3_OP_UNINTERPRETED and e.num_args() > 0: acc.add(d.name())
+        for c in e.children(): _decls(c, acc, seen)
+
+
+def relevant_axioms(axioms, core):
+    """axioms that (transitively) talk about a function symbol of the query; the others define symbols the query does not mention and
+    cannot prevent a model of it from existing (definitional / closure axioms), so they are left out of the *refutation* pass only"""
+    used = set(); seen = set()
+    for f in core: _decls(f, used, seen)
+    ax = [(a, (lambda s_: (_decls(a, s_, set()), s_)[1])(set())) for a in axioms]
+    chosen = []; changed = True
+    while changed:
+        changed = False
+        for a, ds in ax:
+            if not any(a is c for c in chosen) and (ds & used or not ds):
+                chosen.append(a); used |= ds; changed = True
+    return chosen
+
+
+def refute_by_grounding(o, axioms, sorts, sizes=(2, 3), budget=8.0):
     """finite-universe pass: quantifiers over the uninterpreted value sorts are expanded over k fresh constants,
     quantifiers over relation/set sorts are instantiated at the ground terms of that sort present in the query.
     A model is a *candidate* counter-model (it is replayed natively before being called a failing input)."""
-    fs = list(axioms) + list(o.hyps) + [Not(o.goal)]
+    core = list(o.hyps) + [Not(o.goal)]
+    fs = relevant_axioms(axioms, core) + core
     t0 = time.time()
     for k in sizes:
         try:
@@ -58,9 +84,9 @@ def refute_by_grounding(o, axioms, sorts, sizes=(2, 3), budget=20.0):
             for f in fs: qs(f)
             for s in qsorts:
                 if s not in uni:
+                    if s.kind() != Z3_ARRAY_SORT: continue        # Int, sequences, records: the binder is kept
                     terms = collect_terms_of_sort(fs, s)
-                    if not terms: raise ValueError(f'no ground term of sort {s}')
-                    uni[s] = terms[:6]
+                    if terms: uni[s] = terms[:8]
             g = [ground(f, uni) for f in fs]
             dc = []
             for s in sorts:
